@@ -225,6 +225,31 @@ theorem onePass_exact_stddev (is : List Int) (hne : is ≠ []) (h : onePassExact
   simp only [spread, Bool.false_eq_true, if_false]
   exact ⟨hf, h0, by rw [hsq, hv]⟩
 
+/-- REAL inputs: the running sums `Σx`, `Σ(x·x)` (each square and each addition a REAL operation) are exact, and no step of
+the formula rounds -/
+def onePassExactReals (rs : List Nat) : Bool :=
+  rs.all isFinite &&
+  decide (IsExactly (realSum rs) (rs.map toRat).sum) &&
+  decide (IsExactly (realSum (rs.map (fun x => F64.mul x x))) ((rs.map toRat).map (fun x => x ^ 2)).sum) &&
+  onePassExact rs.length (realSum rs) (realSum (rs.map (fun x => F64.mul x x)))
+
+/-- **(ii) for REAL inputs**: where neither the running sums nor the formula round, the model's VARIANCE is exactly the
+textbook variance of the exact values of the inputs -/
+theorem onePass_exact_value_reals (rs : List Nat) (hne : rs ≠ []) (h : onePassExactReals rs = true) :
+    IsExactly (populationVariance rs.length (realSum rs) (realSum (rs.map (fun x => F64.mul x x))))
+      (popVariance (rs.map toRat)) := by
+  unfold onePassExactReals at h
+  simp only [Bool.and_eq_true, decide_eq_true_eq] at h
+  obtain ⟨⟨⟨_, hs⟩, hq⟩, hx⟩ := h
+  obtain ⟨hf, hval⟩ := onePass_exact_formula hx
+  refine ⟨hf, ?_⟩
+  have hne' : rs.map toRat ≠ [] := by simpa using hne
+  rw [hval, hs.2, hq.2, popVariance_eq_onepass _ hne']
+  simp only [List.length_map]
+  have : ((rs.length : Int) : Rat) = (rs.length : Rat) := by push_cast; rfl
+  rw [this]
+  grind
+
 /-! ### (iii) each step on its own is correctly rounded -/
 
 /-- **every step of the one-pass formula is the nearest REAL to the exact result of the operation ON ITS (already rounded)
